@@ -323,7 +323,20 @@ def install(I):
             return tuple(b)
         raise Unsupported("numpy.broadcast_shapes of shapes not provably equal")
 
+    def ft_reduce(I, args, kwargs):
+        f, xs = args[0], B.iterate(I, args[1])
+        if len(args) > 2:
+            acc, rest = args[2], xs
+        else:
+            if not xs:
+                I.raise_("TypeError", "reduce() of empty iterable with no initial value")
+            acc, rest = xs[0], xs[1:]
+        for x in rest:
+            acc = I.call(f, [acc, x], {})
+        return acc
+
     ext.update({
+        "functools.reduce": ft_reduce,
         "numpy.array": np_array,
         "numpy.broadcast_shapes": np_broadcast_shapes,
         "numpy.log": np_log,
